@@ -95,8 +95,13 @@ def broadcast_shapes(eng, s1, s2):
         else:
             if not T.is_sym(a) and not T.is_sym(b):
                 raise _I().PyRaise("ValueError", (f"operands could not be broadcast together {s1} {s2}",))
-            # symbolic extents: NumPy would raise unless equal -> path assumption with obligation flavour
-            eng.assume(T.compare("eq", a, b))
+            # symbolic extents: NumPy raises unless they are equal (or one of them is 1, which the model does not follow symbolically)
+            eq = T.compare("eq", a, b)
+            if not eng.proves(eq):
+                if eng.feasible(z3.And(z3.Not(T.zb(eq)), z3.Or(T.zi(a) == 1, T.zi(b) == 1))):
+                    raise Unsupported("broadcasting of symbolic extents that may be 1")
+                if not eng.branch(eq):
+                    raise _I().PyRaise("ValueError", (f"operands could not be broadcast together {s1} {s2}",))
             out.append(a)
     return tuple(out)
 
